@@ -20,7 +20,8 @@ evaluated `toDOM` outputs), fills the walk's oracle in by itself from the emitte
 (`tag[attr]` selectors, attribute-copying `get_attrs`), and parses; compared exactly with the real run: the HTML, the oracle-annotated
 abstract DOM (snapshot of the real parse of the real HTML), the parsed document.  Relation: the decidable hypothesis `rtOk` of the
 round-trip theorem (faithful rules + whitespace-normal text) implies that the real round trip is the identity; cases are counted per
-node kind (`roundtrip_kind:*`).  Theorems: roundtrip_{text,insert,enter,open,close,finish}_partial (steps of the induction).
+node kind (`roundtrip_kind:*`).  Theorem: roundtrip (rtOk R D doc -> roundTrip R D doc = ok doc; Props/C19.lean), with the
+roundtrip_*_partial theorems as its lemmas; every `rtOk` case of the tie is an instance of it.
 Search (named as such): termination (per-call alarm) and no-crash of lxml / cssselect / `re` on generated HTML; validity of the parsed
 document (check() + independent validator); context-restricted rules apply exactly where the open
 ancestors match; serialise → parse round trip on whitespace-normal documents of the bundled schemas.
